@@ -23,9 +23,12 @@ VARIABLES sim,       \* configuration constants of the run (SimInit line)
           gone,      \* <<o, c>> -> instant at which o last stopped listing c (-1: still listed)
           leavers,   \* nodes that called Leave
           downs,     \* nodes currently crashed
-          stop       \* [t, views, live] at the StopFaults line, or [t |-> -1]
+          stop,      \* [t, views, live] at the StopFaults line, or [t |-> -1]
+          pass       \* node -> probe pass bookkeeping [picks: name -> count, stable, elig (eligible peers at the
+                     \*         last wrap), full (the pass began with a wrap), missed: name -> passes without a probe]
 
-cvars == <<sim, crashT, watch, since, gone, leavers, downs, stop>>
+cbase == <<sim, crashT, watch, since, gone, leavers, downs, stop>>
+cvars == <<cbase, pass>>
 
 NoSim == [nodes |-> 0, probeInterval |-> 0, probeTimeout |-> 0, awMax |-> 0, suspMult |-> 0, maxMult |-> 0,
           pushPull |-> 0, gossipDead |-> 0, tcpTimeout |-> 0, maxDelay |-> 0, healthy |-> FALSE, settle |-> 0]
@@ -59,6 +62,41 @@ ListedState(r) == r.state \in {"alive", "suspect"}
 
 CReport(name, e, ok) == IF ok THEN TRUE ELSE PrintT(<<"VERDICT", name, l, e.case, e.g>>)
 CVacuous(name, e) == PrintT(<<"VACUOUS", name, l, e.case, e.g>>)
+
+\* ---- the probe schedule (C03: every live peer once per pass while membership is stable, at least once
+\* in any two passes otherwise, never the node itself, never a dead peer) --------------------------------
+NoPass == [picks |-> << >>, stable |-> TRUE, elig |-> {}, full |-> FALSE, missed |-> << >>]
+PassOf(n) == IF n \in DOMAIN pass THEN pass[n] ELSE NoPass
+Count(f, x) == IF x \in DOMAIN f THEN f[x] ELSE 0
+Peers(e) == {m.name : m \in e.members} \ {e.n}
+
+ProbeJudge(e) ==
+  /\ (e.ev = "ProbePick") =>
+        CReport("C03_NoSelfNoDead", e, e.node # e.n /\ e.info \in {"alive", "suspect"})
+  /\ (e.ev = "Reap") =>
+        LET p == PassOf(e.n)
+            el == Peers(e) IN
+        /\ (p.full /\ p.stable /\ p.elig = el) =>
+              /\ CReport("C03_Pass", e, \A x \in el : Count(p.picks, x) = 1)
+              /\ PrintT(<<"STAT2", "C03_stable_passes", 1, 1>>)
+        /\ p.full =>
+              CReport("C03_TwoPass", e, \A x \in el \cap p.elig : Count(p.picks, x) = 0 => Count(p.missed, x) = 0)
+
+PassUpdate(e) ==
+  LET p == PassOf(e.n)
+      put(q) == [x \in DOMAIN pass \cup {e.n} |-> IF x = e.n THEN q ELSE pass[x]] IN
+  CASE e.ev = "SimInit" -> pass' = << >>
+    [] e.ev = "Init" -> pass' = put(NoPass)
+    [] e.ev = "ProbePick" ->
+         pass' = put([p EXCEPT !.picks = [x \in DOMAIN p.picks \cup {e.node} |-> Count(p.picks, x) + (IF x = e.node THEN 1 ELSE 0)]])
+    [] e.ev = "Reap" ->
+         LET el == Peers(e) IN
+         pass' = put([picks |-> << >>, stable |-> TRUE, elig |-> el, full |-> TRUE,
+                      missed |-> [x \in el |-> IF p.full /\ x \in p.elig /\ Count(p.picks, x) = 0
+                                                THEN Count(p.missed, x) + 1 ELSE 0]])
+    [] e.ev = "NodeOp" /\ (IsAbsent(e.pre) # IsAbsent(e.post) \/ Listed(e.pre) # Listed(e.post)) ->
+         pass' = put([p EXCEPT !.stable = FALSE])
+    [] OTHER -> UNCHANGED pass
 
 \* C04: predicates of a healthy run
 C04Judge(e) ==
@@ -99,6 +137,7 @@ EndJudge(e) ==
 
 CJudge(e) ==
   /\ C04Judge(e)
+  /\ ProbeJudge(e)
   /\ (e.ev = "End") => EndJudge(e)
 
 \* ---- state update -------------------------------------------------------------
@@ -141,16 +180,17 @@ CUpdate(e) ==
          ELSE IF ListedState(e.pre) /\ ~ListedState(e.post) /\ p \in watch
          THEN /\ gone' = [gone EXCEPT ![p] = e.t]
               /\ UNCHANGED <<sim, crashT, watch, since, leavers, downs, stop>>
-         ELSE UNCHANGED cvars
-    [] OTHER -> UNCHANGED cvars
+         ELSE UNCHANGED cbase
+    [] OTHER -> UNCHANGED cbase
 
 CInit == TInit /\ sim = NoSim /\ crashT = << >> /\ watch = {} /\ since = << >> /\ gone = << >>
-         /\ leavers = {} /\ downs = {} /\ stop = NoStop
+         /\ leavers = {} /\ downs = {} /\ stop = NoStop /\ pass = << >>
 
 CStep == /\ l <= Len(Trace)
          /\ CJudge(Norm(Trace[l]))
          /\ TStep
          /\ CUpdate(Norm(Trace[l]))
+         /\ PassUpdate(Norm(Trace[l]))
 
 CDone == TDone /\ UNCHANGED cvars
 
